@@ -579,6 +579,10 @@ func (cu *CellUnion) decode(d *decoder) {
 		return
 	}
 	const maxCells = 1000000
+	if n < 0 {
+		d.err = fmt.Errorf("negative number of cells (%d)", n)
+		return
+	}
 	if n > maxCells {
 		d.err = fmt.Errorf("too many cells (%d; max is %d)", n, maxCells)
 		return
